@@ -507,7 +507,12 @@ func c17(x *mon.Ctx) {
 		}
 		return b
 	}
-	idxs := []int{-1, 0, 1, 2, 3, 4, 5, math.MinInt, math.MaxInt, math.MinInt32, 1 << 32, 1<<32 + 1, 255, 256, 257, 259, 512, 65536, 65539, -256, -254, -65533, 1 << 31, 1<<40 + 2}
+	idxs := []int{-1, 0, 1, 2, 3, 4, 5, math.MinInt, math.MaxInt, math.MinInt32, 255, 256, 257, 259, 512, 65536, 65539, -256, -254, -65533}
+	for _, v := range []int64{1 << 32, 1<<32 + 1, 1 << 31, 1<<40 + 2} { // (only where int has 64 bits)
+		if int64(int(v)) == v {
+			idxs = append(idxs, int(v))
+		}
+	}
 	var singles []rtmrReq
 	for _, i := range idxs {
 		for _, n := range []int{0, 1, 47, 48, 49, 64, 96} {
